@@ -99,6 +99,22 @@ def kwarg_named_like_posonly(root, path_text) -> bool:
   return False
 
 
+def kwarg_named_like_posonly_path(root, path) -> bool:
+  """The same predicate on a daglish path (keys may contain any character)."""
+  from fiddle import daglish
+  cur = root
+  for pe in path:
+    if isinstance(pe, daglish.Attr) and isinstance(cur, config_lib.Buildable):
+      kinds = {p[0]: p[1] for p in l2.sig_params(cur.__fn_or_cls__)}
+      if kinds.get(pe.name) in ("PosOnly", "VarPos", "VarKw") and pe.name in cur.__arguments__:
+        return True
+    try:
+      cur = pe.follow(cur)
+    except Exception:  # pylint: disable=broad-except
+      return False
+  return False
+
+
 class BadRepr:
   def __repr__(self):
     raise BaseOnly("repr raises BaseException")
